@@ -45,7 +45,7 @@ Edges    == 1..NE
 Pid(i, k) == i * 10 + k                     \* k = 0 behaviour, k >= 1 worker slot / sub-process
 
 EdgeCfg(j) == LET e == C.edges[j] IN
-  [kind |-> e.kind, mode |-> e.mode, cap |-> e.cap, fdelay |-> e.fdelay, transit |-> e.transit, trig |-> 0]
+  [kind |-> e.kind, mode |-> e.mode, cap |-> e.cap, fdelay |-> e.fdelay, transit |-> e.transit, trig |-> e.trig]
 
 ---------------------------------------------------------------------------
 (* protocol calls on edge records; the results are folded into E and tc *)
@@ -87,7 +87,8 @@ Init ==
   /\ now = 0 /\ steps = 0
   /\ E = [j \in 1..Len(Configs[cid].edges) |->
             LET e == Configs[cid].edges[j] IN
-            EmptyStore([kind |-> e.kind, mode |-> e.mode, cap |-> e.cap, fdelay |-> e.fdelay, transit |-> e.transit, trig |-> 0])]
+            \* (trig: slot delay of a slotted conveyor edge, 0 otherwise)
+            EmptyStore([kind |-> e.kind, mode |-> e.mode, cap |-> e.cap, fdelay |-> e.fdelay, transit |-> e.transit, trig |-> e.trig])]
   /\ tc = [j \in 1..Len(Configs[cid].edges) |-> 1]
   /\ S = [i \in 1..Len(Configs[cid].nodes) |->
             LET n == Configs[cid].nodes[i] IN
@@ -393,6 +394,7 @@ EdgeFire(j) ==
   /\ \/ DueItems(E[j]) # {} /\ E' = [E EXCEPT ![j] = FireItem(@)]
      \/ ActDue(E[j]) /\ E' = [E EXCEPT ![j] = FireAct(@)]
      \/ \E k \in DueTrips(E[j]) : E' = [E EXCEPT ![j] = FireTrip(@, k)]
+     \/ DueTimers(E[j]) # {} /\ E' = [E EXCEPT ![j] = FireTimer(@)]          \* slotted conveyor: end of an entry phase
   /\ UNCHANGED <<tc, S, W, place, ctr>> /\ Step
 
 NodeAct ==
@@ -476,7 +478,7 @@ F_C03_Quiescent == (~Urgent /\ NoTimers /\ C.drains) =>
 
 \* C04 on every edge at the end of an instant
 F_C04_EOI == ~Urgent => \A j \in Edges :
-     /\ ~(E[j].putQ # <<>> /\ Len(E[j].putRes) + NInside(E[j]) < C.edges[j].cap)
+     /\ ~(E[j].putQ # <<>> /\ PutRoom(E[j]) /\ (Slotted(E[j]) => E[j].putRes = <<>>))     \* (slotted: one admission per slot)
      /\ ~(E[j].getQ # <<>> /\ Len(E[j].getRes) < Len(E[j].ready))
 
 \* C08: work capacity
@@ -517,10 +519,11 @@ F_C10_TakeInput == ~Urgent => \A i \in Nodes :
      /\ (N(i).type = "machine" /\ S[i].pc \in {"req", "wait"} /\ Len(W[i]) < N(i).wc) =>
           IF N(i).pin = FA THEN \A k \in 1..Len(N(i).ins) : AvailUnres(N(i).ins[k]) <= 0
           ELSE \A k \in 1..Len(S[i].toks) : AvailUnres(S[i].toks[k][1]) <= 0
+Accepts(s) == CanPut(s) /\ (Slotted(s) => Spaced(s))       \* room (and, on a slotted conveyor, the admission spacing)
 F_C10_PushOutput == ~Urgent => \A i \in Nodes :
      /\ \A w \in 1..Len(W[i]) : (W[i][w].pc = "wait") =>
-           \A k \in 1..Len(N(i).outs) : ~CanPut(E[N(i).outs[k]])
-     /\ (N(i).type = "source" /\ S[i].pc = "wait") => \A k \in 1..Len(N(i).outs) : ~CanPut(E[N(i).outs[k]])
+           \A k \in 1..Len(N(i).outs) : ~Accepts(E[N(i).outs[k]])
+     /\ (N(i).type = "source" /\ S[i].pc = "wait") => \A k \in 1..Len(N(i).outs) : ~Accepts(E[N(i).outs[k]])
 
 \* Leg B for factories: the set of outcomes the design allows at the horizon (counters of every node, the sum of the
 \* instants at which each sink received its items, number of items in every edge), printed once per terminal state; the real run of the same configuration must be one of them
